@@ -150,7 +150,7 @@ def after_remove(env, r, case):
     before = {n: sorted(repr(tuple(x)) for x in raw.execute('SELECT * FROM "%s"' % n)) for n in vtables}
     listeners = [(Mapper, 'after_insert', m.track_inserts), (Mapper, 'after_update', m.track_updates),
                  (Mapper, 'after_delete', m.track_deletes), (Session, 'before_flush', m.before_flush),
-                 (Session, 'after_flush', m.after_flush), (Session, 'after_commit', m.clear),
+                 (Session, 'after_flush', m.after_flush), (Session, 'before_commit', m.before_commit), (Session, 'after_commit', m.clear),
                  (Session, 'after_rollback', m.clear), (Session, 'after_transaction_create', m.track_savepoint),
                  (Session, 'after_soft_rollback', m.rollback_savepoint), (sa.engine.Engine, 'before_execute', m.track_association_operations),
                  (sa.engine.Engine, 'rollback', m.clear_connection)]
@@ -180,6 +180,14 @@ def after_remove(env, r, case):
     changed = [n for n in vtables if before[n] != after[n]]
     return {'listeners_left': left, 'version_tables_changed': changed, 'error': err,
             'maps_left': [len(m.units_of_work), len(m.session_connection_map)]}
+
+
+def has_deferred(spec):
+    return any(col.get('deferred') for c in spec['classes'] for col in c['columns'])
+
+
+def deferred_autoflush_expunge(case):
+    return bool(case.get('autoflush')) and has_deferred(case['spec']) and any(st[0] == 'expunge' for st in case['program'])
 
 
 class C07(Prop):
@@ -236,6 +244,9 @@ class C07(Prop):
                                     ['link', 'Article', [3], 'tags', 'Tag', [3]], ['flush'],
                                     ['unlink', 'Article', [3], 'tags', 'Tag', [3]], ['commit']]
             autoflush = rng.random() < 0.4
+            if autoflush and has_deferred(spec):
+                # open finding F-LOADSTATE (pinned in corpus/C07): kept out of the random stream
+                prog = [st for st in prog if st[0] != 'expunge']
             case = {'spec': spec, 'autoflush': autoflush, 'program': prog}
             if rng.random() < 0.1:
                 case['join_mode'] = 'create_savepoint'     # session joined into an external transaction
@@ -281,6 +292,8 @@ class C07(Prop):
                 same = same and all(v['dumps'][i] == h['dumps'][i] for i in ends)
                 if same:
                     return 'C07.differs_like_plain_active_history'
+            if violation['clause'] == 'C07.application_tables_differ' and deferred_autoflush_expunge(case):
+                return 'C07.application_tables_differ:deferred_autoflush_expunge'
         return violation['clause']
 
     def run_case(self, case):
